@@ -75,7 +75,7 @@ MANIFEST = dict(
 )
 
 IMPORTS = ['Coq.Lists.List', 'Coq.Bool.Bool', 'Coq.ZArith.ZArith', 'Coq.Strings.String', 'SV.SM.Store', 'SV.SM.StoreCert',
-           'SV.SM.StoreCopy', 'SV.SM.StoreCopySrc', 'SV.SM.StoreCopyExport', 'SV.SM.StoreCopyFlow', 'SV.SM.StoreCopyWholeProofs', 'SV.SM.StoreRowCert', 'SV.SM.StoreExportCert', 'SV.SM.KvAdd', 'SV.SM.KvAddFresh',
+           'SV.SM.StoreCopy', 'SV.SM.StoreCopySrc', 'SV.SM.StoreCopyExport', 'SV.SM.StoreCopyFlow', 'SV.SM.StoreCopyWholeProofs', 'SV.SM.StoreRowCert', 'SV.SM.StoreExportCert', 'SV.SM.StoreTypedLabels', 'SV.SM.StoreCondRow', 'SV.SM.KvAdd', 'SV.SM.KvAddFresh',
            'SV.SM.OpPurity', 'SV.SM.CollapseCensus', 'SV.Gen.CopyCensus_gen', 'SV.Gen.CopyExportReads_gen',
            'SV.Gen.C09OpCensus_gen', 'SV.Gen.C09Collapse_gen', 'SV.Props.C09']
 CORPUS = hc.VERIF / 'corpus' / 'C09'
@@ -108,6 +108,40 @@ def _merge_known() -> None:
     hc.load_known = load
 
 
+# ------------------------------------------------------------------------------------------------ calls into the implementation
+class ImplHang(Exception):
+    """A call into the implementation did not come back within its deadline (a fault made it loop)."""
+
+
+class deadline:
+    """`with deadline(s):` — raises ImplHang inside the block after s seconds of wall time (SIGALRM; only in the main
+    thread of a process, which is where every search of this check runs — pool workers are processes).  The deadlines
+    are >= 100x the time the block takes on a loaded machine; a deadline that fires is reported as a failing input
+    (key `hang:...`) with a replay, never as an internal error."""
+
+    def __init__(self, seconds: int) -> None:
+        self.seconds = seconds
+        self.armed = False
+
+    def _fire(self, _sig: int, _frm: Any) -> None:
+        raise ImplHang(f'no result after {self.seconds} s')
+
+    def __enter__(self) -> 'deadline':
+        import signal
+        import threading
+        if threading.current_thread() is threading.main_thread() and hasattr(signal, 'SIGALRM'):
+            self.old = signal.signal(signal.SIGALRM, self._fire)
+            signal.alarm(self.seconds)
+            self.armed = True
+        return self
+
+    def __exit__(self, *exc: Any) -> None:
+        import signal
+        if self.armed:
+            signal.alarm(0)
+            signal.signal(signal.SIGALRM, self.old)
+
+
 # ------------------------------------------------------------------------------------------------ one copy case
 def norm_path(p: str) -> str:
     p = re.sub(r'\[\d+\]', '[]', p)
@@ -128,7 +162,18 @@ def where_key(where: str) -> str:
 
 def run_copy_case(kind: str, case_seed: int, variant: str, n_mut: int, collect: dict | None = None) -> list[dict]:
     """Generate an object, copy it, check identity separation, completeness, and independence under a random
-    mutation history applied to one side.  Returns a list of problems (dicts with key/what/detail)."""
+    mutation history applied to one side.  Returns a list of problems (dicts with key/what/detail).  An exception
+    raised by copy() / export of a generated object, or a call that does not return, is a problem like any other."""
+    try:
+        with deadline(120):
+            return _run_copy_case(kind, case_seed, variant, n_mut, collect)
+    except ImplHang as e:
+        return [{'key': f'hang:{kind}', 'what': f'{kind}.{variant}: copy / export / mutation did not return ({e})', 'detail': []}]
+    except Exception as e:      # export of a generated / legally mutated object raised
+        return [{'key': f'raised:{kind}:{type(e).__name__}', 'what': f'{kind}.{variant}: {type(e).__name__}: {e}', 'detail': []}]
+
+
+def _run_copy_case(kind: str, case_seed: int, variant: str, n_mut: int, collect: dict | None = None) -> list[dict]:
     from harness import c09_util as U
     r = random.Random(case_seed)
     vmf, other = U.VMF(), U.VMF()
@@ -136,9 +181,16 @@ def run_copy_case(kind: str, case_seed: int, variant: str, n_mut: int, collect: 
     fn, complete = U.copy_variants(kind)[variant]
     problems: list[dict] = []
     before = U.observe(obj)
-    with warnings.catch_warnings():
-        warnings.simplefilter('ignore')
-        cp = fn(obj, other)
+    try:
+        with warnings.catch_warnings():
+            warnings.simplefilter('ignore')
+            cp = fn(obj, other)
+            U.observe(cp)
+    except ImplHang:
+        raise
+    except Exception as e:
+        return [{'key': f'copy-raised:{kind}:{type(e).__name__}',
+                 'what': f'{kind}.{variant} of a generated object (which exports fine) raised {type(e).__name__}: {e}', 'detail': []}]
     # copying must not change the original
     if U.observe(obj) != before:
         problems.append({'key': f'copy-changes-original:{kind}', 'what': f'{kind}.{variant} changed the export of the original',
@@ -153,7 +205,7 @@ def run_copy_case(kind: str, case_seed: int, variant: str, n_mut: int, collect: 
         oa, ob = U.observe(obj, True), U.observe(cp, True)
         if oa != ob:
             where, la, lb = U.first_diff(oa, ob)
-            problems.append({'key': f'copy-incomplete:{kind}:{"output-line" if kind == "Output" else where_key(where)}',
+            problems.append({'key': f'copy-incomplete:{kind}:{"output-line" if kind == "Output" else "tree" if kind == "Keyvalues" else where_key(where)}',
                              'what': f'{kind}.{variant}: export of the copy differs from the original at {where}: {la!r} vs {lb!r}',
                              'detail': [where, la, lb]})
     if collect is not None:
@@ -181,7 +233,7 @@ def run_copy_case(kind: str, case_seed: int, variant: str, n_mut: int, collect: 
         if now != snap:
             where, la, lb = U.first_diff(snap, now)
             mk = re.sub(r'\[\d+\]|\d+', '', desc.split(':')[0] if ':' in desc else desc)
-            problems.append({'key': f'mutation-visible:{kind}:{where_key(where)}',
+            problems.append({'key': f'mutation-visible:{kind}:{"tree" if kind == "Keyvalues" else where_key(where)}',
                              'what': f'{kind}.{variant}: mutating the {"original" if which == 0 else "copy"} ({desc}) changed the export of the '
                                      f'{"copy" if which == 0 else "original"} at {where}: {la!r} -> {lb!r}',
                              'detail': {'history': list(hist), 'mutation': mk}})
@@ -212,7 +264,7 @@ def _run_copy_cases(jobs: list[tuple]) -> list[tuple[list[dict], int]]:
 
 def search_copies(ck: Ck) -> None:
     from harness import c09_util as U
-    n = _budget(ck, 1300, 40000)
+    n = _budget(ck, 1100, 40000)
     cases: list[tuple[str, int, str]] = []
     if CORPUS.exists():
         for p in sorted(CORPUS.glob('*.json')):
@@ -246,7 +298,7 @@ def search_copies(ck: Ck) -> None:
 
 
 # ------------------------------------------------------------------------------------------------ boundary values of scalar fields
-BOUNDARY = {str: ['', '0', ' '], int: [0, 1, -1, 2, 7], float: [0.0, 0.25, -3.5], bool: [False, True]}
+BOUNDARY = {str: ['', '0', ' '], int: [0, 1, -1, 2, 7], float: [0.0, -0.0, 0.25, -3.5], bool: [False, True]}
 
 
 def _optional_scalar(o: Any, f: str) -> type | None:
@@ -288,6 +340,14 @@ def boundary_values(o: Any, f: str, val: Any) -> list | None:
 
 
 def run_boundary_case(kind: str, case_seed: int, variant: str) -> list[dict]:
+    try:
+        with deadline(300):
+            return _run_boundary_case(kind, case_seed, variant)
+    except ImplHang as e:
+        return [{'key': f'hang:{kind}', 'what': f'{kind}.{variant} with a boundary value did not return ({e})', 'detail': [], 'n_fields': 0}]
+
+
+def _run_boundary_case(kind: str, case_seed: int, variant: str) -> list[dict]:
     """One scalar field at a time: every str/int/float/bool data field of every map object reachable from a generated
     object is set to each boundary value of its type (falsy values, the values a constructor flag would map to, a value
     no editor writes), the object is copied, and the copy must export like the (edited) original.  This is the input
@@ -313,7 +373,7 @@ def run_boundary_case(kind: str, case_seed: int, variant: str) -> list[dict]:
             todo.append((o, f, val, path))
     for o, f, val, path in todo:
         for b in boundary_values(o, f, val) or []:
-            if b == val and type(b) is type(val):
+            if b == val and type(b) is type(val) and repr(b) == repr(val):
                 continue
             try:
                 setattr(o, f, b)
@@ -325,6 +385,8 @@ def run_boundary_case(kind: str, case_seed: int, variant: str) -> list[dict]:
                     oa = U.observe(obj, True)
                     cp = fn(obj, other)
                     ob = U.observe(cp, True)
+            except ImplHang:
+                raise
             except Exception:
                 continue        # not a state the object can be in (export or copy of the ORIGINAL fails): not a copy defect
             finally:
@@ -338,6 +400,148 @@ def run_boundary_case(kind: str, case_seed: int, variant: str) -> list[dict]:
     if not problems:
         problems.append({'key': None, 'n_fields': len(todo)})
     return problems
+
+
+# ------------------------------------------------------------------------------------------------ empty containers
+def _container_ops(c: Any):
+    """(take out every element in place -> saved, put them back in place) for a mutable container, or None."""
+    from harness import c09_util as U
+    if isinstance(c, dict):
+        return (lambda: (list(c.items()), c.clear())[0]), (lambda saved: c.update(saved))
+    if isinstance(c, set):
+        return (lambda: (list(c), c.clear())[0]), (lambda saved: c.update(saved))
+    if isinstance(c, list):
+        return (lambda: (list(c), c.clear())[0]), (lambda saved: c.extend(saved))
+    if isinstance(c, U.Array):
+        def take() -> list:
+            saved = list(c)
+            del c[:]
+            return saved
+        return take, (lambda saved: c.extend(saved))
+    return None
+
+
+def run_empty_case(kind: str, case_seed: int, variant: str) -> list[dict]:
+    """One container field at a time: every list / dict / set / array field of every map object reachable from a
+    generated object is EMPTIED in place (the falsy boundary value of a container: `x and ...`, `if x:`, `x or default`
+    treat it like an absent one), the object is copied, and then
+      * the copy must export like the (edited) original                       (copy-incomplete:...),
+      * no mutable object — in particular not the empty container itself — may be shared   (shared-mutable:...),
+      * the original's container is FILLED again after the copy and the copy must not change   (mutation-visible:...),
+      * the copy's container at the same place is filled and the original must not change.
+    States the original cannot be in (its own export raises) are skipped; a copy() that raises on a state the
+    original exports fine is a problem."""
+    try:
+        with deadline(120):
+            return _run_empty_case(kind, case_seed, variant)
+    except ImplHang as e:
+        return [{'key': f'hang:{kind}', 'what': f'{kind}.{variant} with an emptied container did not return ({e})', 'detail': []}]
+
+
+def _run_empty_case(kind: str, case_seed: int, variant: str) -> list[dict]:
+    from harness import c09_util as U
+    r = random.Random(case_seed)
+    vmf, other = U.VMF(), U.VMF()
+    obj = U.generate(kind, r, vmf)
+    fn, complete = U.copy_variants(kind)[variant]
+    problems: list[dict] = []
+    todo = []
+    done: set[tuple[str, str]] = set()
+    for o, path in sorted(U.walk(obj).values(), key=lambda x: (len(x[1]), x[1])):
+        if not type(o).__module__.startswith('srctools.') or type(o).__module__ == 'srctools.math':
+            continue
+        for lab, val in U.children(o):
+            if not lab.startswith('.') or _container_ops(val) is None or (type(o).__name__, lab) in done:
+                continue
+            done.add((type(o).__name__, lab))
+            todo.append((o, lab[1:], val, path))
+    n_done = 0
+    for o, f, c, path in todo:
+        take, put = _container_ops(c)      # type: ignore[misc]
+        saved = take()
+        try:
+            with warnings.catch_warnings():
+                warnings.simplefilter('ignore')
+                try:
+                    oa = U.observe(obj, True)
+                except ImplHang:
+                    raise
+                except Exception:
+                    continue          # not a state the original can be in
+                try:
+                    cp = fn(obj, other)
+                    ob = U.observe(cp, True)
+                except ImplHang:
+                    raise
+                except Exception as e:
+                    problems.append({'key': f'copy-raised:{kind}:{type(e).__name__}',
+                                     'what': f'{kind}.{variant} with {norm_path(path)}.{f} emptied (the original exports fine) raised '
+                                             f'{type(e).__name__}: {e}', 'detail': [norm_path(path), f], 'n_fields': len(todo)})
+                    continue
+                n_done += 1
+                where_f = f'{type(o).__name__}.{f}'
+                if complete and oa != ob:
+                    where, la, lb = U.first_diff(oa, ob)
+                    problems.append({'key': f'copy-incomplete:{kind}:{"output-line" if kind == "Output" else "tree" if kind == "Keyvalues" else where_key(where)}',
+                                     'what': f'{kind}.{variant} with {norm_path(path)}.{f} EMPTY: export of the copy differs from the '
+                                             f'original at {where}: {la!r} vs {lb!r}', 'detail': [norm_path(path), f, where, la, lb]})
+                for pa, pb, tn in U.shared_mutables(obj, cp):
+                    problems.append({'key': f'shared-mutable:{kind}:{norm_path(pa)}',
+                                     'what': f'{kind}.{variant} with {norm_path(path)}.{f} EMPTY: the mutable {tn} at {pa} is the same '
+                                             f'object in original and copy ({pb})', 'detail': [pa, pb, tn, where_f]})
+                # the copy's container at the same place
+                tail = path[len(type(obj).__name__):] + '.' + f
+                cc = next((x for x, px in U.walk(cp).values() if px[len(type(cp).__name__):] == tail), None)
+                snap_o = U.observe(obj)
+                snap_c = U.observe(cp)
+                put(saved)                      # fill the ORIGINAL's container after the copy
+                saved_back = True
+                if U.observe(cp) != snap_c:
+                    where, la, lb = U.first_diff(snap_c, U.observe(cp))
+                    problems.append({'key': f'mutation-visible:{kind}:empty-{where_f}',
+                                     'what': f'{kind}.{variant}: {norm_path(path)}.{f} was EMPTY when the copy was made; filling it in the '
+                                             f'original afterwards changed the export of the copy at {where}: {la!r} -> {lb!r}',
+                                     'detail': [norm_path(path), f, where, la, lb]})
+                elif cc is not None and cc is not c and _container_ops(cc) is not None and type(cc) is type(c):
+                    snap_o = U.observe(obj)
+                    _container_ops(cc)[1](saved)    # type: ignore[index]   # fill the COPY's container
+                    if U.observe(obj) != snap_o:
+                        where, la, lb = U.first_diff(snap_o, U.observe(obj))
+                        problems.append({'key': f'mutation-visible:{kind}:empty-{where_f}',
+                                         'what': f'{kind}.{variant}: {norm_path(path)}.{f} was EMPTY when the copy was made; filling it in '
+                                                 f'the copy afterwards changed the export of the original at {where}: {la!r} -> {lb!r}',
+                                         'detail': [norm_path(path), f, where, la, lb]})
+                saved = None
+        finally:
+            if saved is not None:
+                put(saved)
+    if not problems:
+        problems.append({'key': None})
+    problems[0]['n_fields'] = n_done
+    return problems
+
+
+def search_empty(ck: Ck) -> None:
+    from harness import c09_util as U
+    n = _budget(ck, 130, 2000)
+    found: dict[str, tuple[dict, tuple]] = {}
+    for i in range(n):
+        kind = U.KINDS[i % len(U.KINDS)]
+        seed = ck.rng.randrange(1 << 30)
+        variant = ck.rng.choice(sorted(U.copy_variants(kind)))
+        probs = run_empty_case(kind, seed, variant)
+        nf = probs[0].get('n_fields', 0) if probs else 0
+        ck.count('empty_container_cases')
+        ck.count('empty_container_fields', nf)
+        ck.hist('empty_container_kind', kind)
+        if nf:
+            ck.seen(('empty', kind, seed, variant))
+        for p in probs:
+            if p.get('key'):
+                found.setdefault(p['key'], (p, (kind, seed, variant)))
+    for key, (p, (kind, seed, variant)) in sorted(found.items()):
+        ck.violation(key, p['what'], {'empty_container': True, 'kind': kind, 'case_seed': seed, 'variant': variant, 'detail': p['detail'],
+                                      'how': 'checks.c09.run_empty_case(kind, case_seed, variant)'})
 
 
 def search_boundary(ck: Ck) -> None:
@@ -426,19 +630,20 @@ def cert_cases(ck: Ck) -> None:
     ck.extra['certificate_rejected'] = [list(m) for m in bad][:20]
 
 
-def export_rows_heap(a: Any, b: Any, ta: Any, tb: Any, label: str, side: dict, eside: dict) -> tuple:
+def export_rows_heap(a: Any, b: Any, ta: Any, tb: Any, side: dict) -> tuple:
     """The object graphs of a (original) and b (copy) as a finite heap for the two census certificates: like
-    c09_util.export_heap, but every object whose class has a census (the two objects the census `label` speaks about —
-    ta inside a, tb inside b — and every nested Solid / Side / DispVertex / Output / Keyvalues ...) gets its fields in
-    CENSUS order and is returned with its census LABEL (the kernel computes the export mask of the node from the
-    generated tables: `masks_of_labels` in Props/C09.v).  Returns nodes, the OLD locations (a's graph), the locations of
-    ta and tb, the reach set of tb (new-set certificate), the (location, label) list and a comparison depth (height of
-    the graph + 1)."""
+    c09_util.export_heap, but for every object whose TYPE NAME is a class of the census table the fields are the
+    attributes named by that class's census, in census order, and the node is reported as a TYPED NODE
+    (location, type(o).__name__, the attribute names read).  Nothing is decided here: the kernel derives the census
+    label from the type name (`label_of_type class_of_label`), checks that the names read are the census's field names in
+    census order and that the node has that many fields (`typed_nodes_ok`), and computes the export mask
+    (`masks_of_typed` in Props/C09.v).  Objects of any other type are plain nodes (all children, fully observed — the
+    strict reading).  Returns nodes, the OLD locations (a's graph), the locations of ta and tb, the reach set of tb
+    (new-set certificate), the typed nodes and a comparison depth (height of the graph + 1)."""
     from harness import c09_util as U
-    census, class_of = side['census'], side.get('class_of', {})
-    label_of_class: dict[str, str] = {}
+    names_of_type: dict[str, list[str]] = {}       # type name -> attribute names to read (validated in the kernel)
     for lab in side.get('classes', []):
-        label_of_class.setdefault(class_of.get(lab, lab), lab)
+        names_of_type.setdefault(side.get('class_of', {}).get(lab, lab), [r[0] for r in side['census'][lab]])
 
     wa, wb = U.walk(a), U.walk(b)
     locs: dict[int, int] = {}
@@ -449,12 +654,12 @@ def export_rows_heap(a: Any, b: Any, ta: Any, tb: Any, label: str, side: dict, e
                 locs[i] = len(locs) + 1
                 objs.append(o)
     atoms: dict[str, int] = {}
-    nodes, masks = [], []
+    nodes, typed = [], []
     for o in objs:
-        lab = label if (o is ta or o is tb) else label_of_class.get(type(o).__name__)
-        if lab is not None and type(o).__name__ == class_of.get(lab, lab):
-            kids = [('.' + r[0], getattr(o, r[0])) for r in census[lab]]
-            masks.append((locs[id(o)], lab))
+        names = names_of_type.get(type(o).__name__)
+        if names is not None:
+            kids = [('.' + n, getattr(o, n)) for n in names]
+            typed.append((locs[id(o)], type(o).__name__, names))
         else:
             kids = U.children(o)
             if isinstance(o, U.Array):
@@ -478,7 +683,7 @@ def export_rows_heap(a: Any, b: Any, ta: Any, tb: Any, label: str, side: dict, e
         memo[l] = 1 + max([height(k, stack + (l,)) for k in kids_of.get(l, [])] or [0])
         return memo[l]
     depth = min(64, max(height(locs[id(ta)]), height(locs[id(tb)])) + 1)
-    return nodes, [locs[i] for i in wa], locs[id(ta)], locs[id(tb)], [locs[i] for i in U.walk(tb)], masks, depth
+    return nodes, [locs[i] for i in wa], locs[id(ta)], locs[id(tb)], [locs[i] for i in U.walk(tb)], typed, depth
 
 
 def cert_rows(ck: Ck, side: dict, eside: dict) -> None:
@@ -543,17 +748,19 @@ def cert_rows(ck: Ck, side: dict, eside: dict) -> None:
                     no_probe.append(lab)
                     break
             try:
-                nodes, old, la, lc, sb, masks, depth = export_rows_heap(o, c, ta, tb, lab, side, eside)
+                nodes, old, la, lc, sb, typed, depth = export_rows_heap(o, c, ta, tb, side)
             except AttributeError:
                 continue
             if len(nodes) > 700:
                 continue
             lit = coq_list(f'({loc}%positive, Node {"true" if m else "false"} {coq_list(fld(f) for f in fs)})' for loc, m, fs in nodes)
-            ml = '(masks_of_labels ' + coq_list(f'({loc}%positive, "{mlab}"%string)' for loc, mlab in masks) + ')'
-            exprs.append(f'let L := {lit} in let O := {pl(old)} in '
+            tl = coq_list('(%d%%positive, "%s"%%string, %s)' % (loc, tname, coq_list(f'"{x}"%string' for x in names))
+                          for loc, tname, names in typed)
+            exprs.append(f'let L := {lit} in let O := {pl(old)} in let T := {tl} in '
                          f'(row_cert_ok L O {la}%positive {lc}%positive {pl(sb)} census_{lab} sources_{lab}, '
-                         f'export_cert_ok L O {la}%positive {lc}%positive {ml} {depth} census_{lab} sources_{lab} '
-                         f'export_reads_{class_of.get(lab, lab)})')
+                         f'(typed_nodes_ok all_census class_of_label L T, '
+                         f'export_cert_ok L O {la}%positive {lc}%positive (masks_of_typed T) {depth} census_{lab} sources_{lab} '
+                         f'export_reads_{class_of.get(lab, lab)}))')
             meta.append((lab, seed, len(nodes), depth))
             got += 1
             ck.count('row_certificate_cases')
@@ -574,7 +781,14 @@ def cert_rows(ck: Ck, side: dict, eside: dict) -> None:
         return
     flat = [v.replace(' ', '').replace('\n', '') for v in vals]
     bad_rows = [m for m, v in zip(meta, flat) if not v.startswith('(true,')]
-    bad_exp = [m for m, v in zip(meta, flat) if not v.endswith(',true)')]
+    bad_exp = [m for m, v in zip(meta, flat) if not v.endswith(',true))')]
+    bad_typed = [m for m, v in zip(meta, flat) if ',(true,' not in v]
+    ck.obligation('certificate:typed_nodes_validated', not bad_typed,
+                  f'the same {len(exprs)} heaps: for every node whose run-time type name is a class of the census table the kernel '
+                  f'finds the census label from the type name, and the attribute names the harness read are that census\'s field '
+                  f'names in census order (node arity checked), for {len(exprs) - len(bad_typed)}; rejected: {bad_typed[:6]}')
+    if bad_typed:
+        ck.tie_broken.append('typed nodes of an exported heap rejected by the kernel: ' + repr(bad_typed[:4]))
     ck.obligation('certificate:census_rows_hold', not bad_rows and not no_probe,
                   f'{len(exprs)} exported (original, copy) heaps over {len(census) - len(no_probe)} census labels: the kernel decides that '
                   f'every field of the copy is related to its source field as the generated census row says and that the '
@@ -667,6 +881,10 @@ def corr_census_runtime(ck: Ck, side: dict, unfresh: tuple = ()) -> None:
                 ck.hist('census_runtime', f'{how}->{rt}')
                 seen_fields.add((lab, f))
                 ok_rt = set(CONSISTENT[how])
+                if f in side.get('conditional', {}).get(lab, []):
+                    # the row is the WEAKER of the two branches of a conditional (`copies if test else self.f`): on the
+                    # inputs that take the other branch the field is better than the row says
+                    ok_rt |= {'share', 'shallow', 'deep', 'imm-same'}
                 if how == 'HDeep' and unfresh:
                     # HDeep = "the nested copy() / constructor census decides"; when one of those censuses itself
                     # fails copy_fresh_mutables the census as a whole SAYS that mutables are shared below this field
@@ -813,6 +1031,14 @@ def operand_expr(x: Any) -> str:
 
 
 def search_operators(ck: Ck) -> None:
+    try:
+        with deadline(600):
+            _search_operators(ck)
+    except ImplHang as e:
+        ck.violation('hang:operators', f'an operator of math.py did not return ({e})', {'how': 'checks.c09.search_operators'})
+
+
+def _search_operators(ck: Ck) -> None:
     from harness.c09_util import bits
     from srctools.math import Angle, FrozenAngle, FrozenMatrix, FrozenVec, Matrix, Vec
     r = ck.rng
@@ -851,6 +1077,13 @@ def search_operators(ck: Ck) -> None:
                         res = fn(a, b)
                 except (TypeError, ZeroDivisionError, ValueError, NotImplementedError):
                     res = None
+                except ImplHang:
+                    raise
+                except Exception as e:       # no operator of math.py raises anything else on these operands
+                    res = None
+                    ck.violation(f'operator-raised:{type(a).__name__}{name}{type(b).__name__}:{type(e).__name__}',
+                                 f'{type(a).__name__} {name} {type(b).__name__} raised {type(e).__name__}: {e}',
+                                 {'op': name, 'a_expr': ea, 'b_expr': eb, 'how': 'a = eval(a_expr); b = eval(b_expr); a <op> b'})
                 ck.count('operator_applications')
                 ck.hist('operator', name)
                 ta, tb = type(a).__name__, type(b).__name__
@@ -875,6 +1108,12 @@ def search_operators(ck: Ck) -> None:
                         res = fn(a)
                 except (TypeError, ZeroDivisionError, ValueError, ArithmeticError):
                     res = None
+                except ImplHang:
+                    raise
+                except Exception as e:
+                    res = None
+                    ck.violation(f'operator-raised:{name}({type(a).__name__}):{type(e).__name__}',
+                                 f'{name}({type(a).__name__}) raised {type(e).__name__}: {e}', {'op': name, 'a': repr(a)})
                 ck.count('operator_applications')
                 if bits(a) != sa:
                     ck.violation(f'operand-changed:{name}({type(a).__name__})', f'{name} changed its operand',
@@ -961,6 +1200,17 @@ def kv_names(kv) -> list[str]:
 
 
 def run_kv_add(case_seed: int) -> list[dict]:
+    try:
+        with deadline(60):
+            return _run_kv_add(case_seed)
+    except ImplHang as e:
+        return [{'key': 'hang:kv-add', 'what': f'Keyvalues + / += / extend or a mutation after it did not return ({e})', 'detail': []}]
+    except Exception as e:
+        return [{'key': f'kv-raised:{type(e).__name__}', 'what': f'Keyvalues + / += / extend on generated trees raised {type(e).__name__}: {e}',
+                 'detail': []}]
+
+
+def _run_kv_add(case_seed: int) -> list[dict]:
     from harness import c09_util as U
     from srctools.keyvalues import Keyvalues
     r = random.Random(case_seed)
@@ -1105,6 +1355,16 @@ Definition model (c : (bool * bool) * (list nat * list nat)) : list nat * list n
 
 # ------------------------------------------------------------------------------------------------ instancing
 def run_instance_case(case_seed: int) -> list[dict]:
+    try:
+        with deadline(120):
+            return _run_instance_case(case_seed)
+    except ImplHang as e:
+        return [{'key': 'hang:instance-collapse', 'what': f'collapse_one / export / an edit of the target did not return ({e})', 'detail': []}]
+    except Exception as e:
+        return [{'key': f'instance-raised:{type(e).__name__}', 'what': f'instance case raised {type(e).__name__}: {e}', 'detail': []}]
+
+
+def _run_instance_case(case_seed: int) -> list[dict]:
     """Collapse an instance twice into a map; the template map must export exactly as before, and the first
     collapsed copy must not change when the second is made."""
     from harness import c09_util as U
@@ -1314,6 +1574,10 @@ def run(ck: Ck) -> None:
         obs['all_sources_present'] = 'Nat.eqb (List.length all_sources) %d && all_sources_match' % len(side.get('classes', []))
         obs['all_flows_present'] = 'Nat.eqb (List.length all_flows) %d && all_args_lossless' % len(side.get('classes', []))
         obs['all_classes_present'] = 'Nat.eqb (List.length all_census) %d' % len(side.get('classes', []))
+        # premise of c09_cond_rows_checked: every conditional row is the join (weaker) of its two branch rows
+        obs['conditional_rows_are_joins'] = 'cond_rows_ok all_census cond_rows && Nat.eqb (List.length cond_rows) %d' % len(side.get('cond_rows', []))
+        # premise of c09_labels_of_a_class_same_mask: the census label of an exported node may be derived from its type name
+        obs['census_labels_of_a_class_agree'] = 'labels_agree all_census class_of_label'
         # premise of c09_all_classes_complete_and_independent (the whole property for every copy method of the table)
         obs['all_classes_complete_and_independent'] = 'all_fresh && all_sources_match && all_export_ok'
         res = ck.instance_obligations(IMPORTS, obs)
@@ -1355,6 +1619,8 @@ def run(ck: Ck) -> None:
     lap('search_copies')
     search_boundary(ck)
     lap('search_boundary')
+    search_empty(ck)
+    lap('search_empty')
     search_kv_add(ck)
     lap('search_kv_add')
     search_operators(ck)
@@ -1382,6 +1648,7 @@ def run(ck: Ck) -> None:
     if any_key('kv-iadd-', 'kv-+=', 'kv-extend'):
         ck.explain('instance:kv_iadd_appends_to_self')
     if any_key('kv-'):
+        ck.explain('correspondence:kv_add')
         ck.explain('instance:kv_added_items_are_copied')
         for b in ('kv_add_single', 'kv_add_iter', 'kv_iadd_single', 'kv_iadd_iter'):
             ck.explain(f'instance:{b}_branch_appends_copy')
@@ -1410,6 +1677,11 @@ def run(ck: Ck) -> None:
 
 def replay(data: dict) -> int:
     r = data['replay']
+    if r.get('empty_container'):
+        for p in run_empty_case(r['kind'], r['case_seed'], r['variant']):
+            if p.get('key'):
+                print(p['key'], '--', p['what'])
+        return 0
     if r.get('boundary'):
         for p in run_boundary_case(r['kind'], r['case_seed'], r['variant']):
             if p.get('key'):
